@@ -426,6 +426,16 @@ class StateRun(object):
             self.sim.log('ev', 'STREAM', line[:100])
             self.events_left -= 1
 
+    def w_addrmap(self):
+        """Tor learns an address: the state tracker's address map follows ADDRMAP events next to the streams. The
+        addresses are the ones streams get REMAPped to (never a stream's first target), several names share one"""
+        self.addrmap_left -= 1
+        name = self.ch.pick(['cdn-a.example', 'cdn-b.example', 'mail.example'], 'amname')
+        ip = self.ch.pick(['10.1.2.3', '10.1.2.3', '10.9.9.9'], 'amip')
+        if self.tor.emit('ADDRMAP', '%s %s NEVER' % (name, ip)):
+            self.sim.probe('addrmap-event-between-stream-events')
+            self.sim.log('ev', 'ADDRMAP', name, ip)
+
     def w_newconsensus(self):
         """Tor switches to a new consensus (same relays): a data-block event between the circuit / stream events"""
         self.consensus_left -= 1
@@ -471,6 +481,8 @@ class StateRun(object):
                 acts.append((w, 'w:circ-close:%d' % c.id, lambda c=c: self.w_circ_end(c, 'CLOSED')))
         if self.consensus_left > 0 and 'NEWCONSENSUS' in self.tor.subscribed:
             acts.append((1, 'w:newconsensus', self.w_newconsensus))
+        if self.addrmap_left > 0 and 'ADDRMAP' in self.tor.subscribed:
+            acts.append((1, 'w:addrmap', self.w_addrmap))
         if len(self.streams) < P.get('max_streams', 8):
             acts.append((3, 'w:stream-new', self.w_stream_new))
         built = [c for c in alive_c if c.status == 'BUILT']
@@ -1001,6 +1013,7 @@ class StateRun(object):
         self.unrelated_pending = 0
         self.close_refusals_left = ch.draw(3, 'closerefusals') if self.prop in ('C07', 'C08') else 0
         self.consensus_left = ch.draw(3, 'nconsensus') if self.prop in ('C07', 'C08') else 0
+        self.addrmap_left = ch.draw(4, 'naddrmap') if self.prop == 'C07' else 0
         self.app_closes_left = ch.draw(4, 'appcloses') if self.prop == 'C07' else 0
         self.refused_closes = set()
         self.make_relays()
